@@ -8,7 +8,7 @@ func VerifC10_q_moveBetweenNodes() {
 }
 
 
-// BOUND: cloud provider configured; topology 0; a statefulset pod requesting two disjoint ranges (two IPs), symbolic policy; bound on n1, then finished and/or deleted, events handled or lost, resync, API release of either IP (2 housekeeping steps); no faults
+// BOUND: cloud provider configured; topology 0; a statefulset pod requesting two disjoint ranges (two IPs), symbolic policy; bound on n1, then finished and/or deleted, events handled or lost, resync, API release of either IP (2 housekeeping steps); one UnAssignIP call may be rejected cleanly by the provider at a symbolic position
 func VerifC10_q_multiIPPod() {
 	w := vpNewWorld(0, true)
 	if err := w.configure(); err != nil {
@@ -29,6 +29,9 @@ func VerifC10_q_multiIPPod() {
 	w.checkAll("C10", "bind of a two-IP pod")
 	w.setRunning(name)
 	w.syncListers()
+	// the provider may reject one UnAssignIP call cleanly (symbolic position among the unassign calls; 0 = none)
+	w.faultKinds = map[string]bool{"provider.unassign": true}
+	w.calls, w.faultAt = 0, nondetInt(0, 2)
 	if nondetBool() {
 		w.finishPod(name)
 		w.syncListers()
@@ -167,3 +170,7 @@ func VerifC10_q_prefixSiblings() { vpPrefixSiblings("C10") }
 // BOUND: cloud provider configured; topology 0; a statefulset pod (symbolic policy) bound, then gone (deleted; its event handled or still pending) so that its IP is reserved or still recorded for the key; an administrator's API release of that IP runs while, as a second logical thread starting inside any one window right before/after an API-server or IPAM call of the release (symbolic window 0..12), the same-named pod is re-created with a new UID, filtered and bound; the second thread waits (parks) wherever it needs a pod/pool key lock the release holds; afterwards another pod is scheduled. No two live pods may hold one IP and every live bound pod must own its IP
 // ASSUME: C10: same scenario as VerifC01_q_releaseVsRebind with the recording provider, checked under C10
 func VerifC10_q_releaseVsRebind() { vpReleaseVsRebind("C10") }
+
+// BOUND: cloud provider configured; topology 0 with all but one address held by other pods; a statefulset pod (symbolic policy) bound and running; a standby instance of galaxy-ipam has an informer cache that stops following at that point; the pod is deleted, its event handled, the same-named pod re-created, bound by the active instance and running; then the standby takes over (new plugin, tables rebuilt from the shared store, but its lagging informer cache: it still holds the first incarnation) and runs one resync pass (and the pod-IP sync pass) before its cache catches up, then another one afterwards. The live pod keeps its IP throughout (the stale cache's answer has to be confirmed with the API server)
+// ASSUME: C10: same scenario as VerifC04_q_failoverStaleCache with the recording provider, checked under C10
+func VerifC10_q_failoverStaleCache() { vpFailoverStaleCache("C10") }
